@@ -58,6 +58,9 @@ func DecodeMap(bytes []byte) (*AmmoConfig, error) {
 func ExtractVariableStorage(cfg *AmmoConfig) (*vs.SourceStorage, error) {
 	storage := vs.NewVariableStorage()
 	for _, source := range cfg.VariableSources {
+		if source == nil {
+			return storage, fmt.Errorf("variable source should be a mapping with name and type")
+		}
 		err := source.Init()
 		if err != nil {
 			return storage, err
